@@ -677,6 +677,11 @@ impl Grid {
             let mut prev_pos = self.pos;
             self.pos.col = 0;
             let scrolled = self.row_inc_scroll(1);
+            if scrolled > prev_pos.row {
+                // the line we wrapped from has scrolled off the top of a
+                // one-line screen, so there is nothing left to mark
+                return;
+            }
             prev_pos.row -= scrolled;
             let new_pos = self.pos;
             self.drawing_row_mut(prev_pos.row)
